@@ -832,6 +832,50 @@ const FRACS: [f64; 8] = [0.0, 0.0, 0.5, 0.25, 0.75, 0.9, 0.999, 0.125];
 const DELAYS: [f64; 10] = [1.0, 2.0, 1.5, 3.0, 5.0, 2.75, 1.999, 4.0, 8.0, 13.25];
 const PERIODS: [f64; 9] = [1.0, 2.0, 1.5, 3.0, 2.5, 1.25, 7.0, 1.75, 4.0];
 
+/// Bursts: up to three groups of one-shot tasks scheduled from global scope, every task of a group
+/// for the same time, with group sizes from 1 to 200 (around powers of two and in between).  Each
+/// task adds its group's weight to a global that dsp returns, so the expected stream is a step
+/// function: at sample t the sum of weight x size over the groups with floor(time) <= t.
+fn gen_burst(g: &mut Gen) -> Value {
+    const SIZES: [u64; 16] = [1, 2, 3, 8, 15, 16, 17, 31, 32, 33, 40, 63, 64, 65, 100, 128];
+    const WEIGHTS: [f64; 3] = [1.0, 1000.0, 1000000.0];
+    const TIMES: [f64; 8] = [1.0, 2.0, 3.0, 3.5, 4.0, 5.999, 6.0, 7.25];
+    let groups = g.int(1, 3) as usize;
+    let n = g.int(4, 10) as u64;
+    let mut text = String::from("let x = 0.0\n");
+    let mut sched = String::new();
+    let mut specs = vec![];
+    for k in 0..groups {
+        let size = if g.bool(3, 4) { *g.pick(&SIZES[..]) } else { g.int(1, 200) as u64 };
+        let time = *g.pick(&TIMES[..]);
+        text.push_str(&format!("fn tick{k}(){{\n    x = x + {}\n}}\n", num(WEIGHTS[k])));
+        specs.push((size, time, WEIGHTS[k]));
+    }
+    // the groups' schedule statements are interleaved or grouped
+    let interleave = g.coin();
+    if interleave {
+        let most = specs.iter().map(|s| s.0).max().unwrap_or(0);
+        for i in 0..most {
+            for (k, (size, time, _)) in specs.iter().enumerate() {
+                if i < *size {
+                    sched.push_str(&format!("tick{k}@{}\n", num(*time)));
+                }
+            }
+        }
+    } else {
+        for (k, (size, time, _)) in specs.iter().enumerate() {
+            for _ in 0..*size {
+                sched.push_str(&format!("tick{k}@{}\n", num(*time)));
+            }
+        }
+    }
+    text.push_str(&sched);
+    text.push_str("fn dsp(){\n    x\n}\n");
+    let expect: Vec<Value> = (0..n).map(|t| json!([specs.iter().filter(|(_, time, _)| time.floor() as u64 <= t).fold(0.0f64, |acc, (size, _, w)| acc + *size as f64 * w)])).collect();
+    let largest = specs.iter().map(|s| s.0).max().unwrap_or(0);
+    json!({"text": text, "n": n, "expect": expect, "burst_largest": largest})
+}
+
 fn gen_via(g: &mut Gen) -> u8 {
     g.weighted(&[5, 2, 2]) as u8
 }
@@ -1132,13 +1176,22 @@ impl Prop for C11 {
     fn spaces(&self, tier: Tier) -> Vec<Space> {
         let grid = Space { name: "grid", size: 216, exhaustive: true, chunk: 54, case_timeout_s: 30.0, what: "three tasks scheduled from global scope, every triple of times from {1, 1.5, 2, 2.999, 3, 4.25} (one task is a 3-step chain)" };
         match tier {
-            Tier::Quick => vec![grid, Space { name: "rand", size: 10000, exhaustive: false, chunk: 100, case_timeout_s: 30.0, what: "generated task multisets (global / dsp / task origins, chains, spawns, equal and fractional times) x run lengths" }],
-            Tier::Thorough => vec![grid, Space { name: "rand", size: 200_000, exhaustive: false, chunk: 400, case_timeout_s: 30.0, what: "generated task multisets (global / dsp / task origins, chains, spawns, equal and fractional times) x run lengths" }],
+            Tier::Quick => vec![grid, Space { name: "burst", size: 600, exhaustive: false, chunk: 50, case_timeout_s: 30.0, what: "1-3 groups of 1-200 one-shot tasks from global scope, each group due at one sample: every one must have run when dsp of that sample runs" }, Space { name: "rand", size: 10000, exhaustive: false, chunk: 100, case_timeout_s: 30.0, what: "generated task multisets (global / dsp / task origins, chains, spawns, equal and fractional times) x run lengths" }],
+            Tier::Thorough => vec![grid, Space { name: "burst", size: 12_000, exhaustive: false, chunk: 100, case_timeout_s: 30.0, what: "1-3 groups of 1-200 one-shot tasks from global scope, each group due at one sample: every one must have run when dsp of that sample runs" }, Space { name: "rand", size: 200_000, exhaustive: false, chunk: 400, case_timeout_s: 30.0, what: "generated task multisets (global / dsp / task origins, chains, spawns, equal and fractional times) x run lengths" }],
         }
     }
     fn run(&self, space: &str, index: u64, g: &mut Gen, cx: &Cx) -> CaseResult {
         match space {
             "grid" => finish(&grid_spec(index), cx, "grid"),
+            "burst" => {
+                let input = gen_burst(g);
+                let largest = input.get("burst_largest").and_then(|v| v.as_u64()).unwrap_or(0);
+                let mut r = finish_text(&input, cx).unwrap_or_else(|| CaseResult::discard("burst-input"));
+                // non-trivial = a group of more than 16 tasks due at one sample
+                r.nontrivial = r.nontrivial || largest > 16;
+                r.classes.push(format!("burst:{}", if largest > 64 { ">64" } else if largest > 32 { "33-64" } else if largest > 16 { "17-32" } else { "<=16" }));
+                r
+            }
             _ => {
                 let s = gen_spec(g, cx.tier);
                 finish(&s, cx, "rand")
@@ -1170,7 +1223,7 @@ impl Prop for C11 {
         }
     }
     fn rule(&self) -> String {
-        "A case is a task multiset: up to 8 task definitions (named function / inline lambda / letrec closure with a local counter made by a maker function, which may schedule that same closure several times, also for one sample / a closure VALUE bound by a global let or letrec, so that every site passes the same closure), each with an optional self-rescheduling chain (period >= 1, `now + p` or an accumulating absolute-time variable, optionally bounded by the task's own run count) and up to 3 spawns of later tasks (delay >= 1, optionally only on the k-th run); scheduling sites at global scope (up to 40, thorough 150; literal or `now + t` times, equal times reused on purpose, fractional parts, times at or beyond the run length, order permuted), in dsp (`if (now == s) {..}` or on every sample) and in running tasks; three syntactic forms (`f@t`, `_mimium_schedule_at(t, f)`, `| |{ f() }@t`). Effects are commutative: each task increments its own counter and adds its own power of two to a shared accumulator; dsp returns the accumulator (one channel) or the tuple of counters. Every scheduled time truncates to a sample later than the current one (documented precondition). Oracle: a reference schedule model (multiset of pending (floor(time), task); at sample t, before dsp, every task with floor(time) == t runs exactly once, what it schedules joins the multiset) gives the expected output words of every sample; the VM must equal the model bit for bit, the WASM runtime must equal the VM; a panic of either runtime is a failure. Non-trivial = >= 3 task runs, >= 2 runs at one sample, and a rescheduling chain of length >= 3; distinct by source + run length. Run length 8..64 samples (thorough: up to 200).".into()
+        "A case is a task multiset: up to 8 task definitions (named function / inline lambda / letrec closure with a local counter made by a maker function, which may schedule that same closure several times, also for one sample / a closure VALUE bound by a global let or letrec, so that every site passes the same closure), each with an optional self-rescheduling chain (period >= 1, `now + p` or an accumulating absolute-time variable, optionally bounded by the task's own run count) and up to 3 spawns of later tasks (delay >= 1, optionally only on the k-th run); scheduling sites at global scope (up to 40, thorough 150; literal or `now + t` times, equal times reused on purpose, fractional parts, times at or beyond the run length, order permuted), in dsp (`if (now == s) {..}` or on every sample) and in running tasks; three syntactic forms (`f@t`, `_mimium_schedule_at(t, f)`, `| |{ f() }@t`). Effects are commutative: each task increments its own counter and adds its own power of two to a shared accumulator; dsp returns the accumulator (one channel) or the tuple of counters. Every scheduled time truncates to a sample later than the current one (documented precondition). Oracle: a reference schedule model (multiset of pending (floor(time), task); at sample t, before dsp, every task with floor(time) == t runs exactly once, what it schedules joins the multiset) gives the expected output words of every sample; the VM must equal the model bit for bit, the WASM runtime must equal the VM; a panic of either runtime is a failure. Non-trivial = >= 3 task runs, >= 2 runs at one sample, and a rescheduling chain of length >= 3; distinct by source + run length. Run length 8..64 samples (thorough: up to 200). Space `burst`: 1-3 groups of 1-200 one-shot tasks (sizes around powers of two, and arbitrary) scheduled from global scope, each group for one time, statements grouped or interleaved; each task adds its group's weight to a global, so the expected stream is a step function computed directly; non-trivial there = a group of more than 16 tasks due at one sample.".into()
     }
     fn assumptions(&self) -> Vec<String> {
         vec![
